@@ -43,7 +43,7 @@ def run(mod, tier, seed, replay=None):
         broken.append("gate: " + "; ".join(g[:5]))
     target = mod.PROP_FILE[:-2] + ".vo"
     tp = time.time()
-    ok, lg = vlib.coq_make([target])
+    ok, lg = vlib.coq_make([target] + list(getattr(mod, "EXTRA_TARGETS", [])))
     thms = vlib.theorems_of(mod.PROP_FILE)
     pa = {"closed": 0, "axioms": []}
     if ok:
